@@ -23,6 +23,12 @@ def queries(tier):
     for q in C17.queries(tier):
         if q.name.startswith(("alloc-sz", "chunk-dup", "chunk-pullup", "chunk-insert-cap8", "chunk-append-cap8", "chunk-realloc-cap8")):
             qs.append(q)
+    # transports: a message cut short in the middle (peer dies / receive aborted) and the pipe torn down; cancelled transfers; websocket transport sends that fail
+    from props import C01
+    for q in C01.queries(tier):
+        if "rx-midbody" in q.name or "-cancel-" in q.name or q.name.startswith("wstran-send"):
+            q.group = "~" + q.group + "#c03"
+            qs.append(q)
     SENV = ["env_alloc.c", "env_misc.c", "env_sync.c", "env_aio.c", "env_idmap.c", "env_libc.c"]
     STU = ["core/list.c", "core/msgqueue.c", "core/pollable.c", "core/options.c"]
     for ps in (0, 24, 100):
@@ -35,5 +41,5 @@ def queries(tier):
 
 MANIFEST = {
     "text": "Message ownership and memory safety decided on the real protocol, queue and message code: in every skeleton a successful send leaves no message on the aio and a failed one leaves the caller's message, every message is released exactly once (reference-count monitor), option changes between the halves of an exchange (REQ resend time, buffer sizes, PREFNEW, unsubscribe) cause no double free or leak, and close+fini returns every message and block with the size it was allocated with; CBMC's pointer, bounds and double-free checks are on in every query. Socket objects: the real nni_sock_create / sock_destroy return every block with the size it was allocated with (sized-free accounting; also when an allocation inside creation fails). Also: the protocol's sock_fini never runs on protocol state that sock_init has not initialised (finding F33).",
-    "note": "Covers the encoded units only (protocols, queues, message); transports and core socket teardown are outside.",
+    "note": "Covers the encoded units only (protocols, queues, message, the stream transports' transfer / cancel / mid-message failure paths, socket create / destroy).",
 }
